@@ -740,41 +740,33 @@ def pattern_i32_to_i32(context, tree, c0):
 @isa.pattern("reg", "I8TOU16(reg)", size=4)
 @isa.pattern("reg", "I8TOU32(reg)", size=4)
 def pattern_i8_to_i32(context, tree, c0):
-    context.emit(Slli(c0, c0, 24))
-    context.emit(Srai(c0, c0, 24))
-    return c0
+    # Do not extend in place: a narrowing cast is a no-op, so c0 may be
+    # the register of a wider value which is still in use.
+    return extend_narrow_value(context, c0, 8, True)
 
 
 @isa.pattern("reg", "I16TOI32(reg)", size=4)
 @isa.pattern("reg", "I16TOU32(reg)", size=4)
 def pattern_i16_to_i32(context, tree, c0):
-    context.emit(Slli(c0, c0, 16))
-    context.emit(Srai(c0, c0, 16))
-    return c0
+    return extend_narrow_value(context, c0, 16, True)
 
 
 @isa.pattern("reg", "U8TOU16(reg)", size=4)
 @isa.pattern("reg", "U8TOI16(reg)", size=4)
 def pattern_8_to_16(context, tree, c0):
-    context.emit(Slli(c0, c0, 24))
-    context.emit(Srli(c0, c0, 24))
-    return c0
+    return extend_narrow_value(context, c0, 8, False)
 
 
 @isa.pattern("reg", "U8TOU32(reg)", size=4)
 @isa.pattern("reg", "U8TOI32(reg)", size=4)
 def pattern_8_to_32(context, tree, c0):
-    context.emit(Slli(c0, c0, 24))
-    context.emit(Srli(c0, c0, 24))
-    return c0
+    return extend_narrow_value(context, c0, 8, False)
 
 
 @isa.pattern("reg", "U16TOU32(reg)", size=4)
 @isa.pattern("reg", "U16TOI32(reg)", size=4)
 def pattern_16_to_32(context, tree, c0):
-    context.emit(Slli(c0, c0, 16))
-    context.emit(Srli(c0, c0, 16))
-    return c0
+    return extend_narrow_value(context, c0, 16, False)
 
 
 @isa.pattern("reg", "I32TOI8(reg)", size=0)
@@ -1288,8 +1280,7 @@ def pattern_shr_u32(context, tree, c0, c1):
 @isa.pattern("reg", "SHRI8(reg, reg)", size=2)
 def pattern_shr_i8(context, tree, c0, c1):
     d = context.new_reg(RiscvRegister)
-    context.emit(Slli(c0, c0, 24))
-    context.emit(Srai(c0, c0, 24))
+    c0 = extend_narrow_value(context, c0, 8, True)
     context.emit(Sra(d, c0, c1))
     return d
 
@@ -1297,8 +1288,7 @@ def pattern_shr_i8(context, tree, c0, c1):
 @isa.pattern("reg", "SHRI16(reg, reg)", size=2)
 def pattern_shr_i16(context, tree, c0, c1):
     d = context.new_reg(RiscvRegister)
-    context.emit(Slli(c0, c0, 16))
-    context.emit(Srai(c0, c0, 16))
+    c0 = extend_narrow_value(context, c0, 16, True)
     context.emit(Sra(d, c0, c1))
     return d
 
